@@ -238,7 +238,7 @@ def check_case(case, ctx):
 def run(ctx):
     mods = hmodels.register_all()
     try:
-        ctx.hypothesis(st_case(), check_case, ctx.scale(2400, 100000), label="consistency")
+        ctx.hypothesis(st_case(), check_case, ctx.scale(2400, 60000), label="consistency")
     finally:
         hmodels.deregister_all(mods)
 
